@@ -258,10 +258,11 @@ def finish(
         "wall_s": round(time.perf_counter() - t0, 3),
         "violations": len(new),
     }
-    EVIDENCE_DIR.mkdir(exist_ok=True)
-    path = EVIDENCE_DIR / f"{pid}.json"
-    path.write_text(json.dumps(ev, indent=1, sort_keys=True))
-    validate_evidence(path)
+    if not os.environ.get("VERIF_NO_EVIDENCE"):  # set by mutation experiments only
+        EVIDENCE_DIR.mkdir(exist_ok=True)
+        path = EVIDENCE_DIR / f"{pid}.json"
+        path.write_text(json.dumps(ev, indent=1, sort_keys=True))
+        validate_evidence(path)
     print(
         f"[{pid}] tier={tier} seed={seed} evaluations={acc.evaluations} states={coverage['states']} "
         f"transitions={acc.transitions} traces={acc.traces} nontrivial={acc.nontrivial} "
